@@ -1904,6 +1904,11 @@ class Model:
             surrogate.outputs = outputs
         if stoichiometries is not None:
             surrogate.stoichiometries = stoichiometries
+        # remove_variable and make_parameter_dynamic edit these dictionaries in place:
+        # the model keeps its own
+        surrogate.stoichiometries = {
+            k: dict(v) for k, v in surrogate.stoichiometries.items()
+        }
 
         # Insert ids
         for output in surrogate.outputs:
@@ -1961,6 +1966,11 @@ class Model:
             surrogate.outputs = outputs
         if stoichiometries is not None:
             surrogate.stoichiometries = stoichiometries
+        # remove_variable and make_parameter_dynamic edit these dictionaries in place:
+        # the model keeps its own
+        surrogate.stoichiometries = {
+            k: dict(v) for k, v in surrogate.stoichiometries.items()
+        }
 
         # Update ids
         for i in old_outputs:
